@@ -381,15 +381,23 @@ def packResults (nres : Nat) (rs : List Val) : Option Val :=
     | [r] => some r
     | _ => some (.agg rs')
 
+/-- One step of an l-value path as an index. -/
+def pathIdx (ev : Expr → Env → Option Val) (env : Env) (a : Acc) : Option Nat :=
+  match a with
+  | .idx e => (ev e env).bind Val.toIndex
+  | .fld k => some k
+
 /-- Resolve an l-value path to indices and store. -/
-def assignTo (ev : Expr → Env → Option Val) (env : Env) (lv : LVal) (v : Val) : Option Env := do
-  let root ← env.lookup lv.x
-  let idxs ← lv.path.mapM fun a =>
-    match a with
-    | .idx e => (ev e env).bind Val.toIndex
-    | .fld k => some k
-  let root' ← root.update idxs v
-  env.set lv.x root'
+def assignTo (ev : Expr → Env → Option Val) (env : Env) (lv : LVal) (v : Val) : Option Env :=
+  match env.lookup lv.x with
+  | none => none
+  | some root =>
+    match lv.path.mapM (pathIdx ev env) with
+    | none => none
+    | some idxs =>
+      match root.update idxs v with
+      | none => none
+      | some root' => env.set lv.x root'
 
 def assignAll (ev : Expr → Env → Option Val) : Env → List LVal → List Val → Option Env
   | env, [], [] => some env
